@@ -3,7 +3,32 @@ package core
 import (
 	"fmt"
 	"os"
+	"runtime"
+	"sync/atomic"
+	"time"
 )
+
+var current atomic.Value
+
+// SetCurrent records a description of the case being executed, for the
+// memory/hang watchdog's diagnostic.
+func SetCurrent(desc string) { current.Store(desc) }
+
+// memWatch aborts the checker (exit 2, tool trouble) when the heap explodes,
+// which happens when the code under test loops while allocating.
+func memWatch(id string) {
+	limit := uint64(12) << 30
+	for {
+		time.Sleep(250 * time.Millisecond)
+		var m runtime.MemStats
+		runtime.ReadMemStats(&m)
+		if m.HeapAlloc > limit {
+			cur, _ := current.Load().(string)
+			fmt.Printf("TOOL-ERROR: property=%s heap above 12 GiB, aborting; current case: %.2000s\n", id, cur)
+			os.Exit(2)
+		}
+	}
+}
 
 // Main is the entry point of a per-property checker binary:
 //   <bin> quick|thorough [--replay path]
@@ -16,6 +41,7 @@ func Main(id, level string, run func(*Ctx)) {
 		fmt.Fprintln(os.Stderr, "usage: check <Cxx> quick|thorough [--replay path]")
 		os.Exit(2)
 	}
+	go memWatch(id)
 	ctx := NewCtx(id, tier, level)
 	for i := 2; i+1 < len(os.Args); i++ {
 		if os.Args[i] == "--replay" {
